@@ -241,11 +241,37 @@ func (w *World) Uninterp(name string, args []Sort, ret Sort) string {
 	return name
 }
 
-// Preamble renders the prelude plus all world-level declarations.
-func (w *World) Preamble() string {
+// Preamble renders the prelude plus the world-level declarations that the query text `body`
+// refers to (struct datatypes with their dependencies, string literals, uninterpreted
+// functions), in a canonical order - so a query does not depend on which other units were
+// encoded before it in the same run.
+func (w *World) Preamble(body string) string {
 	var b strings.Builder
 	b.WriteString(prelude)
+	used := map[*StructInfo]bool{}
+	var mark func(si *StructInfo)
+	mark = func(si *StructInfo) {
+		if used[si] {
+			return
+		}
+		used[si] = true
+		for _, f := range si.Fields {
+			for _, other := range w.structOrder {
+				if strings.Contains(string(f.Sort), other.Name) {
+					mark(other)
+				}
+			}
+		}
+	}
 	for _, si := range w.structOrder {
+		if strings.Contains(body, si.Name) {
+			mark(si)
+		}
+	}
+	for _, si := range w.structOrder { // creation order is a valid dependency order
+		if !used[si] {
+			continue
+		}
 		fmt.Fprintf(&b, "(declare-datatypes ((%s 0)) (((%s", si.Name, si.Ctor)
 		for _, f := range si.Fields {
 			fmt.Fprintf(&b, " (%s %s)", f.Sel, f.Sort)
@@ -253,8 +279,13 @@ func (w *World) Preamble() string {
 		b.WriteString("))))\n")
 	}
 	var lits []string
-	for _, s := range w.strOrder {
+	strs := append([]string{}, w.strOrder...)
+	sort.Strings(strs)
+	for _, s := range strs {
 		c := w.strLits[s]
+		if !containsSym(body, c) {
+			continue
+		}
 		fmt.Fprintf(&b, "(declare-const %s Str) ; %q\n", c, s)
 		fmt.Fprintf(&b, "(assert (= (str_len %s) %s))\n", c, BV(64, uint64(len(s))).T)
 		lits = append(lits, c)
@@ -264,10 +295,37 @@ func (w *World) Preamble() string {
 		sort.Strings(lits)
 		fmt.Fprintf(&b, "(assert (distinct %s))\n", strings.Join(lits, " "))
 	}
-	for _, n := range w.uninterpOrd {
-		b.WriteString(w.uninterp[n] + "\n")
+	names := append([]string{}, w.uninterpOrd...)
+	sort.Strings(names)
+	for _, n := range names {
+		if containsSym(body, n) {
+			b.WriteString(w.uninterp[n] + "\n")
+		}
 	}
 	return b.String()
+}
+
+// containsSym: s contains sym as a whole token.
+func containsSym(s, sym string) bool {
+	i := 0
+	for {
+		j := strings.Index(s[i:], sym)
+		if j < 0 {
+			return false
+		}
+		j += i
+		end := j + len(sym)
+		okL := j == 0 || !isSymChar(s[j-1])
+		okR := end >= len(s) || !isSymChar(s[end])
+		if okL && okR {
+			return true
+		}
+		i = j + 1
+	}
+}
+
+func isSymChar(c byte) bool {
+	return c == '_' || c == '!' || c == '.' || c == '$' || (c >= 'a' && c <= 'z') || (c >= 'A' && c <= 'Z') || (c >= '0' && c <= '9')
 }
 
 // ZeroOf returns the zero value of a Go type.
